@@ -357,6 +357,9 @@ func (w *world) checkStealOnWrite(key string, svc *v1.Service) {
 			if inc.cfgInForce.CheckAssignmentStatic(ok, view, statusAddrs(other)) != "" {
 				continue // the other record is not admissible any more
 			}
+			if _, present, wellFormed := specalloc.RequestedIPs(view); present && !wellFormed {
+				continue // malformed request: whether the record is still admissible is unspecified
+			}
 			if !specalloc.MayShare(svc, view) {
 				sig := ""
 				if inc.curSeen != nil && len(statusAddrs(inc.curSeen)) > 0 {
@@ -418,14 +421,17 @@ func (w *world) atQuiescence() {
 	if len(stat) > 0 {
 		w.nontrivial = true
 	}
+	cfg := inc.cfgInForce
+	if cfg == nil {
+		// no configuration accepted yet (or the current one is rejected): the controller does not
+		// process services at all, nothing is claimed about what users did to their specs meanwhile
+		w.stat("probe.quiescence-without-configuration")
+		return
+	}
 	if env.On("C01") {
 		if msg := stat.ExclusivityViolation(); msg != "" {
 			w.violate("C01", "status-exclusivity-at-quiescence", "", msg)
 		}
-	}
-	cfg := inc.cfgInForce
-	if cfg == nil {
-		return
 	}
 	mem := w.holdings(inc)
 	if env.On("C02") {
